@@ -13,6 +13,8 @@ for c in "$@"; do
 done
 git -C /repo checkout -- .
 git -C /verif checkout -- coq/ApiTable.v 2>/dev/null
+# the evidence files describe the unchanged tree: put back what these runs overwrote
+git -C /verif checkout -- evidence 2>/dev/null
 git -C /repo status --short | head -3
 echo "RESULT $RES"
 echo "$RES" >> "$D/checks.txt"
